@@ -144,7 +144,11 @@ func (ctx *context) ResolveAndCompile(pathname string, opts py.CompileOpts) (py.
 
 	tryPaths := defaultPaths
 	if opts.UseSysPaths {
-		tryPaths = ctx.Store().MustGetModule("sys").Globals["path"].(*py.List).Items
+		sysPath, ok := ctx.Store().MustGetModule("sys").Globals["path"].(*py.List)
+		if !ok {
+			return py.CompileOut{}, py.ExceptionNewf(py.ImportError, "sys.path must be a list of directory names")
+		}
+		tryPaths = sysPath.Items
 	}
 
 	out := py.CompileOut{}
